@@ -225,6 +225,16 @@ def check(pid, tier):
             inconclusive.append("deciding counter %s is zero" % c)
     if m["evaluations"] == 0:
         inconclusive.append("no executions observed")
+    selfcheck = None
+    if getattr(mod, "USES_REFERENCE_MODELS", False):
+        from . import selftest
+
+        fails = selftest.run()
+        selfcheck = {"cases": selftest.count(), "failures": len(fails)}
+        if fails:
+            inconclusive.append("oracle self-check failed: " + "; ".join(fails[:3]))
+    if m["counters"].get("oracle_selfcheck_failures"):
+        inconclusive.append("renderer/parser self-check failed on %d cases" % m["counters"]["oracle_selfcheck_failures"])
 
     known = findings.load(pid)
     known_sigs = {k["sig"] for k in known}
@@ -282,6 +292,7 @@ def check(pid, tier):
         "shards": nshards,
         "inconclusive_reasons": inconclusive,
         "repo": os.environ.get("VERIF_REPO", "/repo"),
+        "oracle_selfcheck": selfcheck,
     }
     for k, vals in sorted(m["sets"].items()):
         vals = sorted(vals, key=str)
